@@ -399,6 +399,29 @@ def run_perturb(case, ctx):
         back = ctx.sut(transform.compute_state_difference, p, q)
         ctx.check(np.abs(back.values.astype(float) + diff.values.astype(float))[:6].max() <= 1e-9 * (1 + np.abs(diff.values[:6]).max()),
                   'series_antisymmetry', lambda: f'{back.values} vs {-diff.values}')
+    # the same for TABLES whose rows are far apart (tens of degrees of latitude, kilometres of altitude): every row is displaced by
+    # the metres asked for at ITS OWN latitude and altitude (stacked perturb_lla), and the table difference recovers them row by row
+    rng = np.random.RandomState(hash_int(case) % 10 ** 6)
+    k = 2 + hash_int(case) % 5
+    tab = pd.DataFrame([p.values.astype(float)] * k, columns=COLS, index=pd.Index(5.0 + np.arange(k), name='time'))
+    tab.loc[tab.index[1:], 'lat'] = rng.uniform(-85, 85, k - 1)
+    tab.loc[tab.index[1:], 'lon'] = rng.uniform(-180, 180, k - 1)
+    tab.loc[tab.index[1:], 'alt'] = rng.uniform(-500, 20000, k - 1)
+    per_row = bool(hash_int(case) % 2)
+    for s in (1.0, 0.01):
+        dr = d[:3] * s
+        dr_arg = dr * rng.uniform(0.5, 1.0, (k, 1)) if per_row else dr
+        qt = tab.copy()
+        qt[['lat', 'lon', 'alt']] = ctx.sut(transform.perturb_lla, tab[['lat', 'lon', 'alt']].values, dr_arg)
+        dt_ = ctx.sut(transform.compute_state_difference, qt, tab)
+        want = np.broadcast_to(dr_arg, (k, 3))
+        r = dt_[['north', 'east', 'down']].values.astype(float) - want
+        bound = 2 * np.linalg.norm(want, axis=1) ** 2 * (1 + np.abs(np.tan(np.radians(tab['lat'].values)))) / 6.3e6 + 1e-7
+        ctx.stat(f'recover_pos_table_{s}', (np.abs(r).max(axis=1) / bound).max())
+        ctx.check(np.all(np.abs(r).max(axis=1) <= bound), 'perturbation_not_recovered:table_position',
+                  lambda: f'scale {s}: rows at lat {tab["lat"].values.tolist()} alt {tab["alt"].values.tolist()} displaced by {np.asarray(dr_arg).tolist()} m: '
+                          f'difference {dt_[["north", "east", "down"]].values.tolist()} (bounds {bound.tolist()})')
+    ctx.label('table_rows=' + str(k), 'table_displacement=' + ('per_row' if per_row else 'common'))
     try:
         transform.compute_state_difference(p, p.to_frame().T)
         ctx.check(False, 'mixed_types_accepted', '')
